@@ -150,3 +150,6 @@ impl<'w, 's, T: Send + Sync + 'static> SystemEvent<'w, 's, T>
 }
 
 //-------------------------------------------------------------------------------------------------------------------
+
+#[cfg(bevy_cobweb_verif)]
+impl SystemEventAccessTracker { pub(crate) fn verif_state(&self) -> (bool, usize) { (self.currently_reacting, self.prepared.len()) } }
